@@ -323,6 +323,7 @@ def run(ctx):
     reach_ = cg_.reachable_from(["blots_core::expressions::pairs_to_expr_inner"])
     int_parsers = sorted(c_ for n_ in reach_ if n_.startswith("blots_core::") or n_.startswith("<blots_core") for c_ in cg_.out.get(n_, ()) if c_.endswith("from_str_radix"))
     ctx.inst("C16.R3", "builder#integer-parse-reachable", bool(int_parsers), "integer parsers reachable from the AST builder: %s (hexadecimal / binary literals converted any other way round twice above 2^53)" % (sorted(set(int_parsers)) or "none"), None)
+    decimal_literals_are_floats(ctx, "C16.R3", core)
     # the radix marker is a prefix: looked for anywhere in the text, `0x10b1` contains a binary marker too
     anyw = ["%s(%r) at %s" % (x["name"], H.lit(x["args"][0])["v"], H.loc(x)) for x in H.walk(num_arm["body"]) if H.kind(x) == "MethodCall" and x["name"] in ("split_once", "rsplit_once", "find", "rfind", "contains", "split", "splitn", "match_indices") and x.get("args") and H.lit(x["args"][0]) and str(H.lit(x["args"][0])["v"]).lower() in ("0b", "0x", "b", "x")]
     ctx.inst("C16.R3", "builder#radix-marker-is-a-prefix", not anyw, "radix markers located anywhere in the literal instead of at its start: %s" % (anyw or "none"), H.loc(num_arm["body"]))
@@ -365,3 +366,28 @@ def run(ctx):
     from rules import c06 as c06_
     c06_.to_json_number_rule(ctx, "C16.R1", core)
     ctx.inst("C16.R3", "functions::BuiltInFunction::call[ToNumber]", okp and not arith, "to_number parses with <f64 as FromStr> (%d parse calls), arithmetic on the result: %d" % (len(parse), len(arith)), H.loc(tn["body"]))
+
+
+def decimal_literals_are_floats(ctx, rid, core):
+    """a decimal literal is read by the f64 parser whatever it looks like: an integer parse (radix 10, `parse::<i64>`) of the digits
+    rejects or saturates literals from 2^63 on - which the emitters and the formatter write out as plain digits (shared with C05 / C07)"""
+    from rules.c10 import closure_of, rule_match
+    import rules.c10 as _c10
+    _c10.CRATE[0] = core
+    builder = core.hir_fn("blots_core::expressions::pairs_to_expr_inner")["body"]
+    cl = closure_of(builder, "map_primary", required=False)
+    mprim = rule_match(cl, required=False) if cl is not None else None
+    num_arm = None
+    for a in (mprim["arms"] if mprim else []):
+        if any(H.last(v) == "number" for v in H.pat_variants(a["pat"])):
+            num_arm = a
+    if num_arm is None:
+        ctx.inst(rid, "builder#decimal-is-float-parse", None, "the number arm of the AST builder was not found", None)
+        return
+    ints = []
+    for x in H.walk(num_arm["body"]):
+        if H.kind(x) == "Call" and (x.get("def") or "").endswith("from_str_radix") and len(x.get("args", [])) == 2 and H.lit(x["args"][1]) and str(H.lit(x["args"][1])["v"]) == "10":
+            ints.append("from_str_radix(.., 10) at %s" % H.loc(x))
+        if H.kind(x) == "MethodCall" and x["name"] == "parse" and any(t_ in (x.get("ty") or "") for t_ in ("i64", "i32", "u64", "u32", "i128", "u128", "isize", "usize")):
+            ints.append("parse::<integer> at %s" % H.loc(x))
+    ctx.inst(rid, "builder#decimal-is-float-parse", not ints, "integer parses of decimal digits in the number arm: %s" % (ints or "none"), H.loc(num_arm["body"]))
